@@ -19,6 +19,12 @@ Theorem C10_code_typing_sound : forall G e, env_typed G e ->
 Proof. intros G e HE c t v. exact (ctype_code_sound false G e HE c t v). Qed.
 Print Assumptions C10_code_typing_sound.
 
+(* the two rules are the same function: the promotion without a required type is symmetric on the code's table, so the operand
+   swap of If.validate is immaterial *)
+Theorem C11_code_typing_rule_is_the_specification : forall G c, ctype_code G c = ctype_spec G c.
+Proof. exact ctype_code_is_spec. Qed.
+Print Assumptions C11_code_typing_rule_is_the_specification.
+
 (* calc: the values computed for the definitions of a calc clause inhabit the types predicted for the new components *)
 Theorem C10_calc_values_typed : forall G e defs, env_typed G e ->
   forall nv ts,
